@@ -364,6 +364,7 @@ func load(T types.Type, addr *value) value {
 		}
 		return a
 	default:
+		raceRead(addr)
 		return *addr
 	}
 }
@@ -384,6 +385,7 @@ func store(T types.Type, addr *value, v value) {
 			store(T.Elem(), &lhs[i], rhs[i])
 		}
 	default:
+		raceWrite(addr)
 		if undoOn {
 			undoLog = append(undoLog, undoRec{addr, *addr})
 		}
